@@ -33,6 +33,7 @@ def invB (s : St) : Bool :=
   (s.w == .unborn → ((s.pc == .top || s.pc == .retErr) && s.lock == (if s.unlocked then .free else .waiter))) &&
   ((returnedB s && !s.unlocked) → s.lock == .waiter) &&
   (s.unlocked → returnedB s) &&
+  (s.unlocked → s.lock != .waiter) &&
   (s.pc == .pred → s.w != .done)
 
 /-- the actions of a given kind, enumerated (mutate carries a Bool) -/
